@@ -39,7 +39,7 @@ CONSTANTS NVals,      \* value tokens 0..NVals-1
           MaxSubs,    \* 1 or 2 subscriptions of the same observable object
           Disposes,   \* TRUE: dispose points range over every position, else NEVER only
           Faults,     \* TRUE: fault positions are enumerated
-          Dsp2,       \* "all": second subscription has every dispose point; "few": NEVER / same / first
+          Dsp2,       \* second subscription: "all" = every dispose point; "few" = never, or the same as the first
           Canon       \* TRUE: timelines are <<0, 1, 0, ...>> only (these operators never look at the values)
 
 Vals  == 0..(NVals - 1)
@@ -160,7 +160,7 @@ Init == /\ op \in Ops
         /\ Relevant(flt, src, term)
         /\ ns \in 1..MaxSubs
         /\ dsp \in [1..ns -> DspOf(src, term)]
-        /\ (ns = 2 /\ Dsp2 = "few") => dsp[2] \in {NEVER, dsp[1], 0}
+        /\ (ns = 2 /\ Dsp2 = "few") => dsp[2] \in {NEVER, dsp[1]}
         /\ cur = 1 /\ i = 0
         /\ st = S0 /\ pend = <<>>
         /\ log = [s \in 1..ns |-> <<>>]
